@@ -156,7 +156,11 @@ class FlowFields(ImageBatch):
             torch.tensor_split,
             Tensor.tensor_split,
         ):
-            return tuple(cls._torch_function_result(func, res, grid, axes) for res in data)
+            if grid and isinstance(grid[0], Grid):
+                grid = [grid] * len(data)  # split along a dimension other than the batch dimension
+            return tuple(
+                cls._torch_function_result(func, res, g, axes) for res, g in zip(data, grid)
+            )
         return cls._torch_function_result(func, data, grid, axes)
 
     @overload
